@@ -33,33 +33,50 @@ class _Proxy:
     """Stand-in for the file object returned by open(path, 'w'...): user-space buffer that
     reaches the real file only on flush/close (or partially, at the crash point)."""
 
-    def __init__(self, rec, path, mode, encoding):
+    def __init__(self, rec, path, kind, flags, perm, binary, encoding):
         self.rec = rec
         self.path = path
         self.name = path
-        self.mode = mode
-        self.binary = "b" in mode
+        self.mode = "wb" if binary else "w"
+        self.binary = binary
         self.encoding = encoding or "utf-8"
         self.pending = b""
-        self.closed = False
         self.fd = None
         self.vfd = 1000000 + len(rec.proxies)
+        rec.proxies.append(self)
+        self.closed = True          # not yet open while the open call itself is the crash point
+        live = rec.tick(("open-" + kind, rec.rel(path)))
+        self.closed = False
+        if live:
+            self.fd = rec.real["os.open"](path, flags, perm)
+
+    @staticmethod
+    def from_mode(rec, path, mode, encoding):
+        """open(path, mode): which of create / truncate / append the mode asks for."""
         if "w" in mode:
             kind, flags = "trunc", os.O_WRONLY | os.O_CREAT | os.O_TRUNC
         elif "a" in mode:
             kind, flags = "append", os.O_WRONLY | os.O_CREAT | os.O_APPEND
         elif "x" in mode:
             kind, flags = "excl", os.O_WRONLY | os.O_CREAT | os.O_EXCL
+        elif "+" in mode:           # "r+": existing file, not truncated, written from offset 0
+            kind, flags = "notrunc", os.O_WRONLY
         else:
             raise NotImplementedError("recorder: unsupported open mode %r" % mode)
-        if "+" in mode:
-            raise NotImplementedError("recorder: unsupported open mode %r" % mode)
-        rec.proxies.append(self)
-        self.closed = True          # not yet open while the open call itself is the crash point
-        live = rec.tick(("open-" + kind, rec.rel(path)))
-        self.closed = False
-        if live:
-            self.fd = rec.real["os.open"](path, flags, 0o666)
+        return _Proxy(rec, path, kind, flags, 0o666, "b" in mode, encoding)
+
+    @staticmethod
+    def from_flags(rec, path, flags, perm):
+        """os.open(path, flags): the flags actually passed decide."""
+        if flags & os.O_TRUNC:
+            kind = "trunc"
+        elif flags & os.O_APPEND:
+            kind = "append"
+        elif flags & os.O_EXCL:
+            kind = "excl"
+        else:
+            kind = "notrunc"
+        return _Proxy(rec, path, kind, flags, perm, True, None)
 
     # file API used by writers
     def write(self, data):
@@ -92,7 +109,7 @@ class _Proxy:
             self.drain()
         self.closed = True
         if self.fd is not None:
-            os.close(self.fd)
+            self.rec.real["os.close"](self.fd)
             self.fd = None
 
     def writable(self):
@@ -152,9 +169,27 @@ class Recorder:
     # patched entry points
     def _open(self, file, mode="r", buffering=-1, encoding=None, errors=None, newline=None,
               closefd=True, opener=None):
-        if self.watched(file) and any(c in mode for c in "wax+"):
-            return _Proxy(self, os.fspath(file), mode, encoding)
+        if isinstance(file, int):
+            x = self._proxy_of(file)
+            if x is not None:           # os.fdopen / open(fd) on a descriptor from the recorded os.open
+                x.binary = "b" in mode
+                x.encoding = encoding or "utf-8"
+                return x
+        elif self.watched(file) and any(c in mode for c in "wax+"):
+            return _Proxy.from_mode(self, os.fspath(file), mode, encoding)
         return self.real["open"](file, mode, buffering, encoding, errors, newline, closefd, opener)
+
+    def _osopen(self, path, flags, mode=0o777, *a, **kw):
+        if self.watched(path) and (flags & os.O_ACCMODE) in (os.O_WRONLY, os.O_RDWR) and not a and not kw:
+            return _Proxy.from_flags(self, os.fspath(path), flags, mode).fileno()
+        return self.real["os.open"](path, flags, mode, *a, **kw)
+
+    def _osclose(self, fd):
+        x = self._proxy_of(fd)
+        if x is None:
+            return self.real["os.close"](fd)
+        x.close()
+        return None
 
     def _fsync(self, fd):
         for x in self.proxies:
@@ -220,8 +255,10 @@ class Recorder:
             "open": builtins.open, "io.open": io.open, "os.open": os.open, "os.fsync": os.fsync,
             "os.fdatasync": os.fdatasync, "os.replace": os.replace, "os.rename": os.rename,
             "os.remove": os.remove, "os.unlink": os.unlink, "os.truncate": os.truncate,
-            "os.sendfile": os.sendfile, "os.write": os.write,
+            "os.sendfile": os.sendfile, "os.write": os.write, "os.close": os.close,
         }
+        os.open = self._osopen
+        os.close = self._osclose
         os.sendfile = self._sendfile
         os.write = self._oswrite
         builtins.open = self._open
@@ -247,6 +284,8 @@ class Recorder:
         os.truncate = self.real["os.truncate"]
         os.sendfile = self.real["os.sendfile"]
         os.write = self.real["os.write"]
+        os.open = self.real["os.open"]
+        os.close = self.real["os.close"]
         # a crash point after the last call
         if self.crash is not None and not self.frozen and len(self.ops) == self.crash[0]:
             self.freeze(self.crash[1])
@@ -302,7 +341,19 @@ def scenarios(ctx):
         {"name": "to-empty", "old": [a], "stale_tmp": None, "new": []},
         {"name": "stale-tmp", "old": [a], "stale_tmp": "{\"version\": 1, \"devi", "new": [b, a]},
         {"name": "unchanged", "old": [a], "stale_tmp": None, "new": [a]},
+        # a stale temporary file longer than / as long as / shorter than what is written now
+        {"name": "stale-longer", "old": [a], "stale_rel": "longer", "new": [b]},
+        {"name": "stale-equal", "old": [a], "stale_rel": "equal", "new": [b]},
+        {"name": "stale-shorter", "old": [a], "stale_rel": "shorter", "new": [b]},
+        {"name": "stale-longer-first-save", "old": None, "stale_rel": "longer", "new": [a]},
+        # two generations: the save of gen_a (long) dies at some point, then `new` (short) is saved
+        {"name": "two-gen", "old": [b], "gen_a": [a, b, dict(a, info={"name": "x" * 120})], "new": [b]},
+        {"name": "two-gen-first", "old": None, "gen_a": [a, b], "new": [{"protocols": {"dmap": {"identifier": "d"}}}]},
     ]
+    for i in range(1 if not ctx.thorough else 6):
+        ga = [rand_device(rng, "a%d" % i) for _ in range(rng.randrange(2, 5))]
+        out.append({"name": "two-gen-random-%d" % i, "old": None if rng.random() < 0.3 else [rand_device(rng, "o")],
+                    "gen_a": ga, "new": ga[:1] if rng.random() < 0.5 else [rand_device(rng, "b%d" % i)]})
     n = 3 if not ctx.thorough else 24
     for i in range(n):
         old = None if rng.random() < 0.15 else [rand_device(rng, "o%d" % i) for _ in range(rng.randrange(0, 4))]
@@ -356,7 +407,9 @@ class Driver:
     def prepare(self, sc):
         """Bytes of the old storage file (written by the real, unpatched save) and of the stale tmp."""
         old_bytes = None
-        if sc["old"] is not None:
+        if sc.get("old_file") is not None:          # the old file given literally (two-generation scenarios)
+            old_bytes = sc["old_file"].encode("utf-8")
+        elif sc.get("old") is not None:
             d = self.fresh_dir()
             st = self.storage(d)
             self.set_devices(st, sc["old"])
@@ -368,7 +421,7 @@ class Driver:
             with open(os.path.join(d, TARGET), "rb") as fh:
                 old_bytes = fh.read()
             shutil.rmtree(d)
-        stale = None if sc["stale_tmp"] is None else sc["stale_tmp"].encode("utf-8")
+        stale = None if sc.get("stale_tmp") is None else sc["stale_tmp"].encode("utf-8")
         return old_bytes, stale
 
     def restore(self, old_bytes, stale):
@@ -408,6 +461,70 @@ class Driver:
         return d, rec, files, want, err
 
 
+def new_bytes_of(drv, sc, old_bytes):
+    _d, rec, _files, want, _err = drv.save_with(sc, old_bytes, None, None)
+    rec.want = want
+    return rec, b"".join(o[2] for o in rec.ops if o[0] in ("write", "os-write"))
+
+
+def expand(ctx, drv, sc, limit):
+    """Concrete scenarios (with their crash-point budget) for the relative / two-generation ones."""
+    if "stale_rel" in sc:
+        old_bytes, _ = drv.prepare(dict(sc, stale_tmp=None))
+        _rec, nb = new_bytes_of(drv, sc, old_bytes)
+        n = {"longer": len(nb) + 41, "equal": len(nb), "shorter": len(nb) // 2}[sc["stale_rel"]]
+        stale = ('{"version": 1, "devices": [{"info": {"name": "' + "s" * n)[:n - 5] + '"}}]}'[:5]
+        c = {k: v for k, v in sc.items() if k != "stale_rel"}
+        return [(dict(c, stale_tmp=stale), limit)]
+    if "gen_a" in sc:
+        old_bytes, _ = drv.prepare(dict(sc, stale_tmp=None))
+        sc_a = {"name": sc["name"] + ":A", "new": sc["gen_a"]}
+        rec_a, a_bytes = new_bytes_of(drv, sc_a, old_bytes)
+        _rec_b, b_bytes = new_bytes_of(drv, sc, old_bytes)
+        pend = list(rec_a.pending_before) + [rec_a.final_pending]
+        d0 = drv.restore(old_bytes, None)
+        expect_old = drv.load_fresh(d0)
+        states = {}
+        for k in range(len(rec_a.ops) + 1):
+            js = {0, 1, len(b_bytes) - 1, len(b_bytes), len(b_bytes) + 1, len(a_bytes) // 2, len(a_bytes) - 1, len(a_bytes)}
+            for j in sorted(x for x in js if 0 <= x <= pend[k]):
+                _d, _r, files, _w, _e = drv.save_with(sc_a, old_bytes, None, (k, j))
+                loaded, load_err = None, None
+                try:
+                    loaded = drv.load_fresh(_d)
+                except Exception as ex:
+                    load_err = "%s: %s" % (type(ex).__name__, str(ex)[:120])
+                shutil.rmtree(_d, ignore_errors=True)
+                ctx.traces += 1
+                bad = judge(loaded, load_err, expect_old, rec_a.want, rec_a.ops, files.get(TARGET), a_bytes, None)
+                if bad:     # the first generation alone already breaks the property: report, do not build on it
+                    ctx.violation(bad[0], bad[1], {"scenario": dict(sc_a, old=sc.get("old"), stale_tmp=None), "crash": [k, j],
+                                                   "recorded_ops": op_names(rec_a.ops), "load_error": load_err})
+                    continue
+                states.setdefault((files.get(TARGET), files.get(TMPNAME)), (k, j))
+        out = []
+        # the states with the longest left-over temporary file get every crash point of the second save
+        order = sorted(states.items(), key=lambda kv: -(len(kv[0][1]) if kv[0][1] is not None else -1))
+        for i, ((tgt, tmp), (k, j)) in enumerate(order):
+            c = {"name": "%s:A-died-at-%d.%d" % (sc["name"], k, j), "new": sc["new"],
+                 "old_file": None if tgt is None else tgt.decode("utf-8"),
+                 "stale_tmp": None if tmp is None else tmp.decode("utf-8")}
+            out.append((c, limit if i < 2 else 16))
+        ctx.count("two-generation:first-save-crash-states", len(out))
+        return out
+    return [(sc, limit)]
+
+
+def is_mixture(tgt, new, stale):
+    """new content (or a prefix of it) followed by the tail of the stale temporary file"""
+    if tgt is None or stale is None or not tgt or tgt == stale:
+        return False
+    k = 0
+    while k < len(tgt) and k < len(new) and tgt[k] == new[k]:
+        k += 1
+    return k < len(tgt) and tgt[k:] == stale[k:len(tgt)] and len(tgt) == max(len(stale), k)
+
+
 def describe(content, old, new):
     if content is None:
         return ("absent",)
@@ -442,6 +559,8 @@ def cop(op, names):
     k = op[0]
     if k == "open-trunc":
         return "OpenTrunc %d" % path_no(names, op[1])
+    if k == "open-notrunc":
+        return "OpenNoTrunc %d" % path_no(names, op[1])
     if k == "write":
         return "Write %d %s" % (path_no(names, op[1]), common.cbytes(op[2]))
     if k in ("flush", "fsync", "close"):
@@ -473,11 +592,16 @@ def crash_points(ctx, rec_full, limit):
     return pts
 
 
-def judge(loaded, load_err, expect_old, expect_new, ops):
+def judge(loaded, load_err, expect_old, expect_new, ops, tgt=None, new_bytes=b"", stale=None):
     """The property, on what a fresh FileStorage.load() makes of the crash state."""
     inplace = any(o[0].startswith("open-") and o[1] == TARGET for o in ops) or \
         any(o[0] in ("truncate", "remove") and o[1] == TARGET for o in ops)
     key = "C15:save:truncate-in-place" if inplace else "C15:save:not-atomic"
+    if not inplace and is_mixture(tgt, new_bytes, stale):
+        key = "C15:save:mixed-content-from-stale-tmp"
+        if load_err is not None or (loaded != expect_old and loaded != expect_new):
+            return key, ("the storage file holds the new content followed by the tail of a temporary file left by an earlier "
+                         "interrupted save (%s)" % (load_err or "loads as neither the previous nor the new settings"))
     kinds = [o[0] for o in ops]
     if kinds and kinds[0] == "open-trunc" and kinds[-1] == "close" and set(kinds[1:-1]) <= {"write"} \
             and all(o[1] == TARGET for o in ops):
@@ -515,7 +639,7 @@ def run_scenario(ctx, drv, sc, limit, cases, only_crash=None):
         ctx.tie_broken("correspondence:recorder-unsupported-call", json.dumps({"scenario": sc["name"], "error": err, "recorded_ops": op_names(full.ops)}))
         return
     ops = full.ops
-    new_bytes = b"".join(o[2] for o in ops if o[0] == "write")
+    new_bytes = b"".join(o[2] for o in ops if o[0] in ("write", "os-write"))
     # completeness of the recording: both runs leave the same directory
     ref = {}
     for f in sorted(os.listdir(d_ref)):
@@ -554,13 +678,13 @@ def run_scenario(ctx, drv, sc, limit, cases, only_crash=None):
                          "load": load_err or ("old" if loaded == expect_old else "new" if loaded == expect_new else "other")}
                  if (j in (0, 7) and k in (1, 2, 6)) else None)
         ctx.count("crash-after:%s" % (ops[k - 1][0] if k else "nothing"))
-        bad = judge(loaded, load_err, expect_old, expect_new, ops)
+        bad = judge(loaded, load_err, expect_old, expect_new, ops, tgt, new_bytes, stale)
         if bad:
             ctx.violation(bad[0], bad[1], {
                 "scenario": sc, "crash": [k, j], "recorded_ops": op_names(ops),
                 "storage_file_after_crash": None if tgt is None else tgt.decode("utf-8", "replace")[:300],
                 "load_error": load_err})
-        if k == len(ops) and load_err is None and loaded != expect_new:
+        if k == len(ops) and load_err is None and loaded != expect_new and not bad:
             ctx.violation("C15:save:completed-save-not-new", "a save() that ran to completion does not load as the new settings",
                           {"scenario": sc, "crash": [k, j]})
     if None in cops:
@@ -578,7 +702,8 @@ def run(ctx):
     if ctx.thorough:
         ctx.coqchk()
     limit = 700 if not ctx.thorough else 100000
-    ctx.rule = ("per scenario (old storage file | none, optional stale temporary file, new settings): every crash point "
+    ctx.rule = ("per scenario (old storage file | none, optional stale temporary file - also longer than / equal to / shorter than "
+                "the new content, and every directory an interrupted earlier save of a longer generation leaves behind - , new settings): every crash point "
                 "(k recorded file-system calls completed, j bytes of the pending buffer written; all j up to %d per buffer, "
                 "sampled above) of the real FileStorage.save(); non-trivial = crash strictly inside the save; "
                 "distinct by (scenario, k, j, resulting directory)" % limit)
@@ -586,8 +711,9 @@ def run(ctx):
     cases = []
     try:
         scs = [dict(c["scenario"], name="corpus:" + f) for f, c in common.load_corpus(ctx.pid)] + scenarios(ctx)
-        for sc in scs:
-            run_scenario(ctx, drv, sc, limit, cases)
+        for sc0 in scs:
+            for sc, lim in expand(ctx, drv, sc0, limit):
+                run_scenario(ctx, drv, sc, lim, cases)
     finally:
         drv.close()
     items = []
@@ -630,7 +756,8 @@ def replay(ctx, path):
     drv = Driver()
     cases = []
     try:
-        run_scenario(ctx, drv, sc, 100000, cases, only_crash=r.get("crash"))
+        for sc2, _lim in expand(ctx, drv, sc, 100000):
+            run_scenario(ctx, drv, sc2, 100000, cases, only_crash=r.get("crash"))
     finally:
         drv.close()
     for v in ctx.violations:
